@@ -1,7 +1,7 @@
 (** C01: distributed lock (kvs/distlock/kvlock.go) - at most one holder at any instant.
     Model: model/LockLTS.v, proofs: proofs/C01_Exclusion.v, proofs/C01_Versions.v. *)
 From Coq Require Import List Arith Bool NArith Lia.
-From GL Require Import model.LockLTS proofs.C01_Exclusion.
+From GL Require Import model.LockLTS proofs.C01_Exclusion proofs.C01_Tokens proofs.C01_Versions.
 Import ListNotations.
 
 (** * Mutual exclusion
@@ -61,7 +61,7 @@ Proof.
   exists s. split; [reflexivity|]. split; [|split].
   - apply no_expire_respected. unfold C01_ex_trace. cbn.
     intros H. repeat (destruct H as [H|H]; [discriminate H|]). exact H.
-  - unfold wf_programs, C01_ex_trace. cbn. repeat split; discriminate.
+  - apply wf_programs_b. vm_compute. reflexivity.
   - vm_compute in Hr. injection Hr as <-. vm_compute. split; reflexivity.
 Qed.
 
@@ -71,6 +71,104 @@ Proof.
   intros s Hr. destruct C01_ex_meets_premises as (s0 & Hr0 & HL & HW & _).
   apply (C01_mutual_exclusion (fun _ => 0) C01_ex_trace s Hr HL HW).
   repeat constructor; cbn; intuition discriminate.
+Qed.
+
+(** non-vacuity of [leases_respected] with an [Expire]: a Create whose reply is lost leaves an orphan
+    record (nobody claims it); goroutine 1 waits on it; the lease runs out; goroutine 1 acquires *)
+Definition C01_ex_pre : list label :=
+  [ Invoke 0 (OCtx 0); TakeToken 0; CheckCtx 0; StCreate 0 FReplyLost; PutToken 0; Return 0 (RErr EStorage);
+    Invoke 1 (OLock 1); TakeToken 1; CheckCtx 1; StCreate 1 FOk ].
+Definition C01_ex_post : list label :=
+  [ StWaitRet 1 WChanged; CheckCtx 1; StCreate 1 FOk; Return 1 RUnit ].
+
+Example C01_ex_expire :
+  exists s, run (init (fun _ => 0)) (C01_ex_pre ++ Expire :: C01_ex_post) = Some s
+            /\ leases_respected (fun _ => 0) (C01_ex_pre ++ Expire :: C01_ex_post)
+            /\ wf_programs (fun _ => 0) (C01_ex_pre ++ Expire :: C01_ex_post)
+            /\ held (lk s 1) = Some 2%N /\ holders_in s [0; 1; 2] = 1.
+Proof.
+  destruct (run (init (fun _ => 0)) (C01_ex_pre ++ Expire :: C01_ex_post)) as [s|] eqn:Hr;
+    [|vm_compute in Hr; discriminate].
+  exists s. split; [reflexivity|]. split; [|split].
+  - apply respects_app_intro.
+    + apply no_expire_respected. unfold C01_ex_pre. cbn.
+      intros H. repeat (destruct H as [H|H]; [discriminate H|]). exact H.
+    + intros s1 Hs1. vm_compute in Hs1. injection Hs1 as <-.
+      cbn [respects]. split.
+      * cbn [lease_ok]. intros v tn Hrec [[L H]|[t [L H]]].
+        -- vm_compute in H. destruct L as [|[|L]]; discriminate.
+        -- vm_compute in H. destruct t as [|[|t]]; discriminate.
+      * match goal with |- match ?x with _ => _ end => destruct x as [s2|]; [|exact I] end.
+        apply no_expire_respected. unfold C01_ex_post. cbn.
+        intros H. repeat (destruct H as [H|H]; [discriminate H|]). exact H.
+  - apply wf_programs_b. vm_compute. reflexivity.
+  - vm_compute in Hr. injection Hr as <-. vm_compute. split; reflexivity.
+Qed.
+
+(** * Token accounting (invariant I1) and version freshness (invariant I3)
+
+    For every trace of well-formed programs, faults included: the token of a Locker is in its
+    channel only when the Locker is not held, its counter is 0 and no thread is between TakeToken
+    and PutToken on it; at most one thread is inside per Locker, and not while the Locker is
+    held; and if nobody is inside, it is not held and its provider is live, the token is there. *)
+Theorem C01_token_accounting : forall (lp : lockerId -> provId) (tr : list label) (s : state),
+  run (init lp) tr = Some s -> wf_programs lp tr ->
+  (forall L, token (lk s L) = true ->
+     held (lk s L) = None /\ cntr (lk s L) = false /\ forall t, userb (pc_of s t) L = false) /\
+  (forall t1 t2 L, userb (pc_of s t1) L = true -> userb (pc_of s t2) L = true -> t1 = t2) /\
+  (forall t L, userb (pc_of s t) L = true -> held (lk s L) = None) /\
+  (forall L, held (lk s L) <> None -> cntr (lk s L) = true /\ token (lk s L) = false) /\
+  (forall L, (forall t, userb (pc_of s t) L = false) -> held (lk s L) = None ->
+     down s (lprov s L) = false -> token (lk s L) = true).
+Proof.
+  intros lp tr s Hr HW. pose proof (tinv_reachable lp tr s Hr HW) as I.
+  repeat split.
+  - apply (t_tok s I L H).
+  - apply (t_tok s I L H).
+  - apply (t_tok s I L H).
+  - apply (t_one s I).
+  - apply (t_user s I).
+  - apply (t_held s I L H).
+  - apply (held_no_users s I L H).
+  - apply (t_tok1 s I).
+Qed.
+Print Assumptions C01_token_accounting.
+
+(** every version in the record, in renewal timers and in storage waits is below the counter of
+    fresh versions (this is where the storage's version freshness, C02, enters) *)
+Theorem C01_versions_below_counter : forall lp tr s,
+  run (init lp) tr = Some s ->
+  (forall v tn, rec s = Some (v, tn) -> (v < nextver s)%N) /\
+  (forall id, (tm_ver (timers s id) < nextver s)%N) /\
+  (forall t L k v, pc_of s t = WaitVer L k v -> (v < nextver s)%N).
+Proof. exact versions_below_counter. Qed.
+Print Assumptions C01_versions_below_counter.
+
+(** a renewal CAS matches only the record of its own tenure: the stale timer of a previous
+    tenure can never touch (prolong) a newer record.  Every trace, no premise. *)
+Theorem C01_stale_renewal_never_matches : forall lp tr s id o,
+  run (init lp) tr = Some s ->
+  cas_hit s (timers s id) = Some o -> o = tm_tn (timers s id).
+Proof. exact stale_renewal_never_matches. Qed.
+Print Assumptions C01_stale_renewal_never_matches.
+
+(** non-vacuity: a renewal of tenure 1 in flight at Unlock, the stale CAS after a new tenure
+    began finds a newer version and dies; exclusion is unaffected *)
+Definition C01_ex_renew : list label :=
+  [ Invoke 0 (OLock 0); TakeToken 0; CheckCtx 0; StCreate 0 FOk; Return 0 RUnit;
+    TimerFire 0; StCas 0 FOk; Rearm 0;        (* first renewal: version 1 -> 2, timer 1 armed *)
+    TimerFire 1;                              (* second renewal starts ... *)
+    Invoke 0 (OUnlock 0); StDelete 0 FOk; PutToken 0; Return 0 RUnit;
+    Invoke 1 (OLock 1); TakeToken 1; CheckCtx 1; StCreate 1 FOk; Return 1 RUnit;
+    StCas 1 FOk; Rearm 1 ].                   (* ... and its CAS arrives after the hand-over: no match *)
+
+Example C01_ex_renew_run :
+  exists s, run (init (fun _ => 0)) C01_ex_renew = Some s /\
+            rec s = Some (3%N, 2%N) /\ held (lk s 1) = Some 2%N /\ held (lk s 0) = None /\
+            tm_st (timers s 1) = TFinished /\ tm_tn (timers s 1) = 1%N.
+Proof.
+  destruct (run (init (fun _ => 0)) C01_ex_renew) as [s|] eqn:Hr; [|vm_compute in Hr; discriminate].
+  exists s. split; [reflexivity|]. vm_compute in Hr. injection Hr as <-. vm_compute. repeat split.
 Qed.
 
 (** * The premise on programs cannot be dropped
